@@ -334,37 +334,13 @@ theorem C17_file_in_dependency_order (schemas : List Pass.PSchema) (hord : Pass.
   have h0 : Pass.Clean [] Pass.fileStart :=
     ⟨fun k => by simp [Pass.fileStart], rfl, fun _ => rfl, fun q hq => absurd hq List.not_mem_nil,
      fun q hq => absurd hq List.not_mem_nil, fun x hx => absurd hx List.not_mem_nil⟩
-  have h1 := Pass.round_clean [] schemas Pass.fileStart h0 hord (fun _ _ => rfl)
+  have h1 := Pass.round_clean Generated.CxxPass.deferPartial [] schemas Pass.fileStart h0 hord (fun _ _ => rfl)
   simp only [List.nil_append] at h1
-  -- after the first round nothing is left to do: further rounds return the state unchanged
-  have hstop : ∀ n (fs : Pass.FileSt), (∀ q ∈ schemas, fs.unprocessed q.name = false) →
-      Pass.rounds .untilSettledOrStalled .inSchemaOrProcessed schemas n fs = fs := by
-    intro n fs hfin
-    cases n with
-    | zero => rfl
-    | succ n =>
-      simp only [Pass.rounds]
-      have : schemas.any (fun p => fs.unprocessed p.name) = false := by
-        rw [List.any_eq_false]; intro q hq; rw [hfin q hq]; decide
-      simp [this]
-  have key : Pass.printFile .untilSettledOrStalled .inSchemaOrProcessed schemas (fuel + 1) =
-      (if (schemas.any (fun p => Pass.fileStart.unprocessed p.name) && !Pass.fileStart.hung) = true
-       then schemas.foldl (Pass.visitSchema .untilSettledOrStalled .inSchemaOrProcessed) Pass.fileStart else Pass.fileStart) := by
-    unfold Pass.printFile
-    simp only [Pass.rounds]
-    split
-    · exact hstop fuel _ h1.finished
-    · rfl
-  rw [key]
-  split
-  · exact ⟨h1.nothung, h1.suffix0, h1.finished⟩
-  · rename_i hany
-    have hemp : schemas = [] := by
-      cases schemas with
-      | nil => rfl
-      | cons a r => simp [Pass.fileStart] at hany
-    subst hemp
-    exact ⟨rfl, fun x hx => absurd hx List.not_mem_nil, fun q hq => absurd hq List.not_mem_nil⟩
+  have hfr := Pass.printFile_first_round Generated.CxxPass.deferPartial schemas hord fuel
+  refine ⟨?_, ?_, ?_⟩
+  · rw [hfr.2.1]; exact h1.nothung
+  · rw [hfr.1]; exact h1.suffix0
+  · intro q hq; rw [hfr.2.2]; exact h1.finished q hq
 
 /-- the hypothesis is satisfiable (a schema with an enumeration and an entity using it; two-schema files in dependency
     order are exercised by the correspondence, where the predicted suffixes are compared with the real exp2cxx) -/
@@ -557,6 +533,29 @@ theorem C17_described_schemas_have_code (p : Bool) (f : SchemaFile) :
     · exact Or.inr h2
     · exact Or.inl h2
 
+/-! ## schemas visited before a supplier: the deferral of partially printable schemas (fix C17-5) -/
+
+/-- A schema that comes BEFORE its supplier in the dictionary (`m1`: entity `thing` with an attribute of `m2`'s enumeration, and an
+    independent entity `other`): without the deferral it is printed in two parts `_1`, `_2` around the supplier (names the scanner
+    does not list — the finding `multipass-suffix`); with the deferral it is put back in the first round and printed once, with
+    suffix 0, after the supplier.  (Replayed on the real exp2cxx: SdaiM1_1.h, SdaiM1_2.h, SdaiM2.h  vs  SdaiM1.h, SdaiM2.h.) -/
+theorem C17_deferral_witness :
+    let user : Pass.PSchema := { name := "m1", types := [], ents := [{ name := "m1.thing", items := ["m2.colour"] }, { name := "m1.other" }], stubs := [{ name := "m2.colour", isEnum := true, foreign := true }] }
+    let supplier : Pass.PSchema := { name := "m2", types := [{ name := "m2.colour", isEnum := true }], ents := [] }
+    (Pass.printFile .untilSettledOrStalled .inSchemaOrProcessed [user, supplier] 5 false).printed = [("m1", 1), ("m2", 0), ("m1", 2)] ∧
+    (Pass.printFile .untilSettledOrStalled .inSchemaOrProcessed [user, supplier] 5 true).printed = [("m2", 0), ("m1", 0)] := by
+  decide
+
+/-- Schemas that need EACH OTHER cannot all be printed in one piece: with the deferral the first round prints nothing, the second
+    falls back to printing in parts — the only shape for which `multipass-suffix` remains.  (Replayed: SdaiS_ONE.h, SdaiS_TWO_1.h,
+    SdaiS_TWO_2.h with and without the deferral.) -/
+theorem C17_mutual_dependency_witness :
+    let one : Pass.PSchema := { name := "s_one", types := [{ name := "s_one.colour", isEnum := true }], ents := [{ name := "s_one.thing", items := ["s_two.size"] }], stubs := [{ name := "s_two.size", isEnum := true, foreign := true }] }
+    let two : Pass.PSchema := { name := "s_two", types := [{ name := "s_two.size", isEnum := true }], ents := [{ name := "s_two.item", items := ["s_one.colour"] }], stubs := [{ name := "s_one.colour", isEnum := true, foreign := true }] }
+    (Pass.printFile .untilSettledOrStalled .inSchemaOrProcessed [two, one] 6 true).printed = [("s_two", 1), ("s_one", 0), ("s_two", 2)] ∧
+    (Pass.printFile .untilSettledOrStalled .inSchemaOrProcessed [two, one] 6 false).printed = [("s_two", 1), ("s_one", 0), ("s_two", 2)] := by
+  decide
+
 /-! ## the link between the two models: the pass assignment of the file-set model IS what the multpass model prints -/
 
 /-- a schema of the multpass model stands for a schema of the declaration-level model: same name, and it has an own object
@@ -643,7 +642,7 @@ theorem C17_passes_agree_with_pass_model (f : SchemaFile) (ps : List Pass.PSchem
           (fun x => x.1 == s.name)).map (·.2) = pf s := by
   have hc : Generated.CxxPass.enumLastCase = .inSchemaOrProcessed := by decide
   have hl : Generated.CxxPass.sweepLoop = .untilSettledOrStalled := by decide
-  rw [hc, hl, Pass.printFile_printed ps hord hdj fuel]
+  rw [hc, hl, Pass.printFile_printed Generated.CxxPass.deferPartial ps hord hdj fuel]
   have hpf : pf = fun s => if s.types.isEmpty && s.entities.isEmpty then [] else [0] := by
     unfold Cxx.passes at hp
     split at hp
